@@ -26,6 +26,12 @@ CHECKS = {
  "C07": dict(engine="ledger", cat="exploration", tech="runtime monitoring: five-index consistency invariants on every snapshot + shadow model of ever-active consensus addresses with resolvability deadlines",
    text="After every step the five key indexes are cross-checked from raw bytes; every key-setting operation is judged against the pre-state registry; a shadow model tracks addresses that were in the stored validator set and asserts resolvability until the closing block of epoch e+N and pruning afterwards.",
    note="trusts: proto decoding; never-active keys carry no requirement (statement silent); two recorded findings (addresses that left the stored set earlier are dropped at once)", ref="DESIGN.md §5 C07"),
+ "C15": dict(engine="epochs", cat="exploration", tech="runtime monitoring: reference epoch clock stepped alongside the real BeginBlocker + online trace check of every epoch notification (hook H3)",
+   text="Generated identifier sets and block-time sequences aimed at boundaries (exactly on, 1 ns either side, multi-duration gaps, equal times); after every block the stored EpochInfos must equal a reference clock written from the statement and the recorded notification trace must be exactly the expected ordered sequence to the five subscribers.",
+   note="trusts: hook H3 (one tracer call before each subscriber is notified, build tag verif); proto decoding of the epochs store", ref="DESIGN.md §5 C15"),
+ "C17": dict(engine="fees", cat="exploration", tech="runtime monitoring: per-step supply and solvency monitor, per-epoch-end conservation of moved vs booked claims with exact big-integer arithmetic",
+   text="Every step: total supply may change only by the configured reward at a mint-epoch end; booked claims (community pool + commissions + staker rewards, parsed from raw store bytes) never exceed the distribution account balance and only change at distribution epoch ends. Every distribution epoch end: collector balance moved completely, booked = moved exactly, each validator's portion proportional to power (never above the exact share) and split by its commission rate.",
+   note="trusts: bank keeper balance/supply getters; operator info getter for commission rates; identifiers tick in lexicographic order (mint-before-distribution in one block is modelled when the mint identifier sorts first)", ref="DESIGN.md §5 C17"),
 }
 NOT_YET = {}
 props=[json.loads(l)["id"] for l in open("/verif/properties.jsonl")]
@@ -42,7 +48,9 @@ m=dict(version=1, setup_cmd="./setup.sh",
   hooks=dict(guard="verif", enable="go build -tags verif (harness/go.mod replaces github.com/ExocoreNetwork/exocore => /repo)",
      baseline_off_cmd="cd /repo && go build ./... && go test -vet=off -count=1 -timeout 25m ./...",
      source_commits=[h.split()[0] for h in hooks], add_only=True),
-  engines=[dict(name="ledger", path="harness/eng/ledger.go", serves_properties=["C01","C02","C03","C04","C05","C06","C07","C16"], kind_free_text="in-process full-app ABCI driver + seeded hostile workload + per-step snapshot monitors")],
+  engines=[dict(name="epochs", path="harness/eng/epochs.go", serves_properties=["C15"], kind_free_text="full app + generated epoch identifiers and block times + reference clock + H3 notification trace"),
+    dict(name="fees", path="harness/eng/fees.go", serves_properties=["C17"], kind_free_text="full app + validators/stakers/AVSs/fee income workload + supply/claims monitor"),
+    dict(name="ledger", path="harness/eng/ledger.go", serves_properties=["C01","C02","C03","C04","C05","C06","C07","C16"], kind_free_text="in-process full-app ABCI driver + seeded hostile workload + per-step snapshot monitors")],
   checks=checks, not_applicable=na,
   notes="All checks: ./check <id> <tier>; exit 0 held / 1 violation (VIOLATION line) / 2 inconclusive / 3 build failure. known_findings.json lists recorded defects and fix: commits.")
 json.dump(m, open("/verif/MANIFEST.json","w"), indent=1)
